@@ -43,7 +43,7 @@ PROPERTY = "C17"
 LEVEL = "model_checking"
 BUDGET = {"quick": 90.0, "thorough": 840.0}
 RULE = ("cmd: BFS over all histories of {write value_i | relinquish} x priority in the tier's priority set (None = no "
-        "priority) plus the refused forms (priority 0/17/255 with a value and with Null; priorityArray[0] := length, "
+        "priority) plus the refused forms (priority 0/17/255/-1/-16 with a value and with Null; priorityArray[0] := length, "
         "priorityArray[0] := value, priorityArray[17] := value, priorityArray[17] := Null), plus writes of every invalid "
         "value of the class (cmdref.INVALID: undefined enumeration number / name, wrong datatype, out of range) at every "
         "priority of the set, plus priorityArray[k] := value (wire driver: and := Null) for every k of the set (either "
@@ -144,7 +144,7 @@ def alphabet(cfg):
     if part == "min":
         ops.append(("adv",))
     else:
-        for p in (0, 17, 255):
+        for p in (0, 17, 255, -1, -16):      # a priority is a signed integer on the wire
             ops.append(("w", p, 0))
             ops.append(("r", p))
         ops += [("a", 0, "len"), ("a", 0, "val"), ("a", 17, "val"), ("a", 17, "null")]
